@@ -109,6 +109,8 @@ def names_in(traces):
                 actors.add(e["o"]["a"])
             elif ev in ("cb", "h_begin") and e["task"] not in clients:
                 actors.add(e["task"])
+            elif ev == "pick" and re.fullmatch(r"[ar]\d+", e["task"]):
+                actors.add(e["task"])
     return sorted(actors), sorted(clients)
 
 
@@ -119,7 +121,7 @@ def tla_set(xs):
 TRACE_INVS = ["C01_AtMostOnce", "C01_RealTimeFIFO", "C01_NoOverlap", "C01_Fold", "C02_OwnResult", "C02_Resolves",
               "C03_Order", "C03_HandlersInside", "C03_Graceful", "C03_StartErr",
               "C04_Drain", "C04_NoLate", "C04_StopTerminates", "C04_AnnounceAfter",
-              "C05_KeepAlive", "C05_DrainOnDrop", "C05_UpgradeDead", "C06", "C07", "C08", "C10", "C11", "C12", "C14", "C15", "C16", "C17"]
+              "C05_KeepAlive", "C05_DrainOnDrop", "C05_UpgradeDead", "C06", "C07", "C08", "C09_ExactlyOnce", "C09_Delivered", "C09_CommonOrder", "C09_PublisherOrder", "C09_BrokerNeverFails", "C10", "C11", "C12", "C13", "C14", "C15", "C16", "C17"]
 
 
 def validate_shard(traces, dev, workdir, tag, timeout=600):
@@ -262,6 +264,8 @@ COMPAT = {
     "weak_caller": ["addr", "owning"], "to_addr": ["owning"], "detach": ["owning"],
     "join": ["owning"], "consume": ["owning"], "consume_sync": ["owning"],
 }
+for _op in ("stopped", "running", "drop", "ping"):      # (stopping the broker itself is outside C09's quantifier)
+    COMPAT[_op] = COMPAT[_op] + ["baddr"]
 CONSUMES = {"halt", "await", "drop", "detach", "consume", "consume_sync"}
 NEWKIND = {
     ("clone", "addr"): "addr", ("clone", "sender"): "sender", ("clone", "caller"): "caller", ("clone", "waddr"): "waddr",
@@ -282,6 +286,7 @@ class Prog:
         self.rng, self.c, self.h, self.w, self.scripts = rng, client, dict(handles), weights, scripts
         self.polled = set()
         self.types = ["1", "2"]
+        self.topics = ["1", "2"]
         self.ops = []
         self.counter = counter
 
@@ -298,6 +303,24 @@ class Prog:
                 return True
             if op == "sleep":
                 self.ops.append({"op": "sleep", "d": rng.randint(1, 3)})
+                return True
+            if op == "publish":
+                self.ops.append({"op": "publish", "ty": rng.choice(self.topics)})
+                return True
+            if op in ("bpublish", "bsubscribe", "bunsubscribe"):
+                bs = [x for x, k in self.h.items() if k == "baddr"]
+                subs = [x for x, k in self.h.items() if k in ("addr", "owning")]
+                if not bs or (op != "bpublish" and not subs):
+                    continue
+                o = {"op": op, "h": rng.choice(sorted(bs))}
+                if op != "bpublish":
+                    o["h2"] = rng.choice(sorted(subs))
+                self.ops.append(o)
+                return True
+            if op == "broker":
+                nh = self.fresh()
+                self.ops.append({"op": "from_registry", "ty": "B" + rng.choice(self.topics), "nh": nh})
+                self.h[nh] = "baddr"
                 return True
             if op in ("feed", "end_stream"):
                 self.ops.append({"op": op, "a": "a1", "d": rng.randint(1, 3)})
